@@ -37,8 +37,13 @@ def world():
     import xdeps
     o = Obj()
     o.s = 2.0
+    o1, o2 = Obj(), Obj()
+    o1.s, o2.s = 8.5, -4.5
     d = {"a": 3.0, "b": 5.0, "c": -2.0, "z": 7.0, "t": 0.0, "n0": {"p": 1.5, "q": 4.0},
-         "l": [1.0, 2.0, 3.0], "o": o, "i0": 1, "k0": "p", "s0": 2}
+         "l": [1.0, 2.0, 3.0], "o": o, "i0": 1, "k0": "p", "s0": 2,
+         # containers of containers: a computed key in the MIDDLE of an access chain
+         "tab": [{"p": 10.0, "q": 11.0}, {"p": 20.0, "q": 21.0}, {"p": 30.0, "q": 31.0}],
+         "objs": {"p": o1, "q": o2}}
     F = dict(E.FUNCS)
     m = xdeps.Manager()
     roots = {"d": d, "F": F}
@@ -58,7 +63,14 @@ S0 = E.loc("d", ("i", "s0"))
 LC = E.loc("d", ("i", "l"))
 N0 = E.loc("d", ("i", "n0"))
 DROOT = ["loc", "d", []]
-LEAVES = [A, B, E.loc("d", ("i", "c")), Z, NP, E.loc("d", ("i", "n0"), ("i", "q")), OS,
+TAB = E.loc("d", ("i", "tab"))
+OBJS = E.loc("d", ("i", "objs"))
+CHAIN_ITEM = ["item", ["item", TAB, I0], E.lit("p")]              # d['tab'][d['i0']]['p']
+CHAIN_ATTR = ["cattr", ["item", OBJS, K0], E.lit("s")]            # d['objs'][d['k0']].s
+CHAIN_EXPR = ["item", ["item", TAB, ["bin", "-", S0, I0]], E.lit("q")]   # d['tab'][d['s0'] - d['i0']]['q']
+LEAVES = [E.loc("d", ("i", "tab"), ("i", 1), ("i", "p")), E.loc("d", ("i", "tab"), ("i", 2), ("i", "p")),
+          E.loc("d", ("i", "tab"), ("i", 1), ("i", "q")), E.loc("d", ("i", "objs"), ("i", "p"), ("a", "s")),
+          E.loc("d", ("i", "objs"), ("i", "q"), ("a", "s")), A, B, E.loc("d", ("i", "c")), Z, NP, E.loc("d", ("i", "n0"), ("i", "q")), OS,
           E.loc("d", ("i", "l"), ("i", 0)), L1, E.loc("d", ("i", "l"), ("i", 2)), I0, K0, S0]
 
 FILLERS = {
@@ -69,6 +81,9 @@ FILLERS = {
     "nested-2": ["bi", "abs", ["bin", "*", E.lit(2), NP], []],
     "nested-3": ["bin", "+", E.lit(1), ["un", "-", ["call", E.loc("F", ("i", "sq")), [L1], []]]],
     "computed-item": ["item", LC, I0],
+    "computed-mid-chain(item)": CHAIN_ITEM,
+    "computed-mid-chain(attr)": CHAIN_ATTR,
+    "computed-mid-chain(expr key)": CHAIN_EXPR,
     "container": DROOT,
 }
 NEW_VALUES = {"num": 11.5, "i0": 2, "k0": "q", "s0": 3}
@@ -268,7 +283,7 @@ def run_enumeration(ctx):
             continue
         f, info = check_term(ast, cn)
         nt = (not slot.startswith("lhs") and not slot.startswith("arg")) or fname in (
-            "nested-2", "nested-3", "computed-item")
+            "nested-2", "nested-3", "computed-item") or fname.startswith("computed-mid-chain")
         ctx.stats.case({"class": cn, "slot": slot, "filler": fname, "term": E.render(ast)}, nt,
                        ["enum", f"class:{cn}", f"filler:{fname}", f"outcome:{info}"])
         if f:
@@ -276,7 +291,7 @@ def run_enumeration(ctx):
     ctx.stats.exhaustive["node class x operand slot x filler shape"] = True
 
 
-TG = G.TermGen(LEAVES[:10], [S0], {k: E.loc("F", ("i", k)) for k in ("add2", "scale", "sq", "hyp")},
+TG = G.TermGen(LEAVES[:15] + [CHAIN_ITEM, CHAIN_ATTR, CHAIN_EXPR], [S0], {k: E.loc("F", ("i", k)) for k in ("add2", "scale", "sq", "hyp")},
                [(LC, I0), (N0, K0)], lits=G.numbers(),
                ops=list(E.BINOPS), builtins=["abs", "round", "floor", "ceil", "trunc"], unary=list(E.UNOPS),
                allow_eq=True, allow_divmod=True)
